@@ -174,6 +174,25 @@ fn verify_large(
             }
         }
     }
+    for p in &r.0 {
+        let bb = |ring: &LineString<f64>| {
+            let mut b = (f64::INFINITY, f64::INFINITY, f64::NEG_INFINITY, f64::NEG_INFINITY);
+            for c in &ring.0 {
+                b = (b.0.min(c.x), b.1.min(c.y), b.2.max(c.x), b.3.max(c.y));
+            }
+            b
+        };
+        let e = bb(p.exterior());
+        for h in p.interiors() {
+            let b = bb(h);
+            if !(e.0 <= b.0 && e.1 <= b.1 && b.2 <= e.2 && b.3 <= e.3) {
+                fail(format!(
+                    "an_interior_ring_with_box_({},{})-({},{})_lies_outside_the_box_({},{})-({},{})_of_its_exterior_ring",
+                    b.0, b.1, b.2, b.3, e.0, e.1, e.2, e.3
+                ));
+            }
+        }
+    }
     if r.0.len() != polys || nholes != holes {
         fail(format!("{}_polygons_with_{}_interior_rings,_expected_{}_and_{}", r.0.len(), nholes, polys, holes));
     }
@@ -373,6 +392,127 @@ fn scenario(name: &str, n: i64) {
             assert_eq!(r.0.len(), 1);
             assert_eq!(r.0[0].interiors().len(), n as usize);
             verify_large(name, &r, &[&a, &b], &[(10.0, 1.0)], 10.0 * h - n as f64 + 2.0, 1, n as usize);
+        }
+        "frames" => {
+            // n separate square frames (each a polygon with its own hole) in a row, united with a small square
+            // in the gap after the first frame: 2n + 1 result rings, every hole belongs to its own frame
+            let sqr = |x0: f64, y0: f64, x1: f64, y1: f64| {
+                LineString(vec![
+                    Coord { x: x0, y: y0 },
+                    Coord { x: x1, y: y0 },
+                    Coord { x: x1, y: y1 },
+                    Coord { x: x0, y: y1 },
+                    Coord { x: x0, y: y0 },
+                ])
+            };
+            // in a row: the sweep meets shell, hole, shell, hole, ... so the ids of the traced contours alternate
+            let a = MultiPolygon(
+                (0..n)
+                    .map(|k| {
+                        let x = 4.0 * k as f64;
+                        Polygon::new(sqr(x, 0.0, x + 3.0, 3.0), vec![sqr(x + 1.0, 1.0, x + 2.0, 2.0)])
+                    })
+                    .collect(),
+            );
+            let b = MultiPolygon(vec![Polygon::new(sqr(3.25, 1.0, 3.75, 2.0), vec![])]);
+            let r = a.union(&b);
+            verify_large(name, &r, &[&a, &b], &[], 8.0 * n as f64 + 0.5, n as usize + 1, n as usize);
+        }
+        "saw" => {
+            // one long edge (the top side of a flat rectangle) crossed 2n times by a zigzag: it is divided again
+            // and again, so whatever links the pieces of one edge forms a chain as long as the number of
+            // crossings.  All crossing points are dyadic: (i +- 1/4, 1).
+            let nn = n as usize;
+            let w = n as f64;
+            let rect = MultiPolygon(vec![Polygon::new(
+                LineString(vec![
+                    Coord { x: 0.0, y: 0.0 },
+                    Coord { x: w, y: 0.0 },
+                    Coord { x: w, y: 1.0 },
+                    Coord { x: 0.0, y: 1.0 },
+                    Coord { x: 0.0, y: 0.0 },
+                ]),
+                vec![],
+            )]);
+            let mut pts = Vec::with_capacity(2 * nn + 4);
+            pts.push(Coord { x: 0.0, y: -1.0 });
+            pts.push(Coord { x: w, y: -1.0 });
+            pts.push(Coord { x: w, y: 0.5 });
+            for i in (0..nn).rev() {
+                pts.push(Coord { x: i as f64 + 0.5, y: 1.5 });
+                pts.push(Coord { x: i as f64, y: 0.5 });
+            }
+            pts.push(Coord { x: 0.0, y: -1.0 });
+            let saw = MultiPolygon(vec![Polygon::new(LineString(pts), vec![])]);
+            let mut extra = Vec::with_capacity(2 * nn);
+            for i in 0..=nn {
+                extra.push((i as f64 - 0.25, 1.0));
+                extra.push((i as f64 + 0.25, 1.0));
+            }
+            let r = rect.intersection(&saw);
+            verify_large(name, &r, &[&rect, &saw], &extra, w - w / 8.0, 1, 0);
+            let r = rect.union(&saw);
+            // the saw's area is 2n (strip of height 1.5 plus n teeth of area 1/2); the union adds the n teeth tops
+            // already counted and the part of the rectangle above the zigzag: area(saw) + n/8
+            verify_large(name, &r, &[&rect, &saw], &extra, 2.0 * w + w / 8.0, 1, 0);
+        }
+        "mirrortime" => {
+            // a comb whose rectangular teeth point left and whose tips move right from tooth to tooth, and
+            // its mirror image at the x axis (teeth met bottom to top instead of top to bottom), each united
+            // with a small triangle apart from it: the same amount of work, so the two running times may
+            // differ by a constant factor but not by a factor that grows with the number of teeth
+            let stair = |sy: f64| -> (MultiPolygon<f64>, MultiPolygon<f64>) {
+                let nn = n as usize;
+                let xs = n as f64 + 10.0;
+                let top = n as f64 + 1.0;
+                let mut pts = Vec::with_capacity(4 * nn + 5);
+                pts.push(Coord { x: xs + 1.0, y: 0.0 });
+                pts.push(Coord { x: xs + 1.0, y: sy * top });
+                pts.push(Coord { x: xs, y: sy * top });
+                for i in 0..nn {
+                    let y = (nn - i) as f64;
+                    let tip = i as f64;
+                    pts.push(Coord { x: xs, y: sy * (y + 0.5) });
+                    pts.push(Coord { x: tip, y: sy * (y + 0.5) });
+                    pts.push(Coord { x: tip, y: sy * y });
+                    pts.push(Coord { x: xs, y: sy * y });
+                }
+                pts.push(Coord { x: xs, y: 0.0 });
+                pts.push(Coord { x: xs + 1.0, y: 0.0 });
+                let a = MultiPolygon(vec![Polygon::new(LineString(pts), vec![])]);
+                let b = MultiPolygon(vec![Polygon::new(
+                    LineString(vec![
+                        // inside the comb's bounding box (no bounding-box shortcut), below its lowest tooth
+                        Coord { x: 0.0, y: 0.0 },
+                        Coord { x: 0.5, y: 0.0 },
+                        Coord { x: 0.0, y: sy * 0.5 },
+                        Coord { x: 0.0, y: 0.0 },
+                    ]),
+                    vec![],
+                )]);
+                (a, b)
+            };
+            let mut times = [0.0f64; 2];
+            for (k, sy) in [(0usize, -1.0f64), (1usize, 1.0f64)] {
+                let (a, b) = stair(sy);
+                let t0 = std::time::Instant::now();
+                let r = a.union(&b);
+                times[k] = t0.elapsed().as_secs_f64();
+                let area: f64 = ring_area2(a.0[0].exterior()).abs() / 2.0 + 0.125;
+                verify_large(name, &r, &[&a, &b], &[], area, 2, 0);
+            }
+            let (lo, hi) = if times[0] < times[1] { (times[0], times[1]) } else { (times[1], times[0]) };
+            println!("TIMES mirror={:.3}s comb={:.3}s", times[0], times[1]);
+            if hi > 25.0 * lo + 3.0 {
+                println!(
+                    "LARGE-CHECK {} one_orientation_of_the_same_input_takes_{:.0}_times_as_long_as_the_other_({:.2}s_vs_{:.2}s)",
+                    name,
+                    hi / lo.max(1e-9),
+                    hi,
+                    lo
+                );
+                std::process::exit(3);
+            }
         }
         "sweepdesc" => {
             // tips at x = 1 .. 1 + n/1000 enter top to bottom; the clipping box ends at x = 800 < 900, so the
